@@ -143,6 +143,8 @@ RESERVED = {'default', 'end', 'from', 'at', 'in', 'then', 'else', 'if', 'let', '
 
 
 def mangle(n):
+    if n == '_':
+        return 'u_'          # Python's throw-away name is a hole in Lean
     return n + '_' if n in RESERVED else n
 
 
